@@ -273,13 +273,19 @@ func judgeValidAuth(s sink, scheme string, f chain.AuthFactory, a chain.Auth, ms
 func runC17Shard(s sink, rng *rand.Rand, scheme string, nAuth int, last *os.File) {
 	kind := map[string]int{"ed25519": 0, "secp256r1": 1, "bls": 2}[scheme]
 	seenAddr := map[codec.Address]string{}
-	for i := 0; i < nAuth; i++ {
+	// BLS: further honest auths that get the (cheap) subgroup re-encodings only
+	total := nAuth
+	if scheme == "bls" {
+		total += 6 * nAuth
+	}
+	for i := 0; i < total; i++ {
 		f, _ := realFactory(rng, kind)
 		var cid ids.ID
 		copy(cid[:], randBytes(rng, 32))
 		// message: the unsigned bytes of a real transaction, or arbitrary bytes (incl. empty)
 		var msg []byte
 		var tx *chain.Transaction
+		var txData *chain.TransactionData
 		if rng.IntN(3) > 0 {
 			t := &actions.Transfer{Value: 1 + rng.Uint64()>>uint(rng.IntN(63)), Memo: randBytes(rng, rng.IntN(40))}
 			copy(t.To[:], randBytes(rng, codec.AddressLen))
@@ -290,6 +296,7 @@ func runC17Shard(s sink, rng *rand.Rand, scheme string, nAuth int, last *os.File
 				panic("harness: sign: " + err.Error())
 			}
 			msg = td.UnsignedBytes()
+			txData = &td
 		} else {
 			msg = randBytes(rng, []int{0, 1, 32, 200}[rng.IntN(4)])
 		}
@@ -304,6 +311,7 @@ func runC17Shard(s sink, rng *rand.Rand, scheme string, nAuth int, last *os.File
 			}
 		}
 		judgeValidAuth(s, scheme, f, a, msg)
+		judgeAddressOrders(s, scheme, f, a.Bytes(), msg, txData)
 		// the address is determined by the public key: same key -> same address, other key -> other address
 		a2, err := f.Sign(append([]byte("another message"), msg...))
 		if err == nil && (a2.Actor() != a.Actor() || a2.Sponsor() != a.Sponsor()) {
@@ -316,7 +324,14 @@ func runC17Shard(s sink, rng *rand.Rand, scheme string, nAuth int, last *os.File
 		seenAddr[a.Actor()] = pkHex
 
 		orig := a.Bytes()
-		for _, m := range mutantsOf(scheme, orig, rng, i%2 == 0) {
+		var muts []c17Mutant
+		if i < nAuth {
+			muts = mutantsOf(scheme, orig, rng, i%2 == 0)
+		}
+		if scheme == "bls" {
+			muts = append(muts, blsSubgroupMutants(s, rng, orig, msg, 3)...)
+		}
+		for _, m := range muts {
 			c := c17Case{Scheme: scheme, Msg: hx(msg), Orig: hx(orig), Mutant: hx(m.b), Mutation: m.name}
 			logC17(last, c)
 			outcome := judgeAuthMutant(s, c, m.class)
@@ -386,7 +401,7 @@ func TestC17Child(t *testing.T) {
 
 func TestC17(t *testing.T) {
 	r := kit.Start(t, "C17", "exploration")
-	r.Rule("for honestly generated keys and signatures of ed25519, secp256r1 and BLS (messages: unsigned bytes of real transfer transactions and arbitrary byte strings incl. empty), every alternative auth encoding of a catalog is parsed and verified for the same message: all single-bit flips of the auth bytes (every bit for every second auth, a 1/8 sample otherwise), trailing/leading/truncated bytes, wrong type ids; ed25519: s+k*l for every k that fits, sign bits of R and A, y+p re-encodings where representable; secp256r1: (r,n-s), r+n/s+n where < 2^256, every public-key prefix; BLS: compression/infinity/sign flag of key and signature (sign flip = negated signature), x+p re-encodings of each field element where representable. Non-bit-flip mutants are also re-embedded into the transaction (parse + VerifyAuth, id must not change). None may verify. Plus, per honest auth: Unmarshal(Bytes()) round trip, verification after the round trip, Actor/Sponsor/factory address = type id | sha256(public key). Non-trivial = mutant that parses (reaches signature verification); distinct = (scheme, mutation, outcome). Low-S boundary part (secp256r1): for 3000 / 150000 messages a key is constructed (nonce k and s chosen, d = (s*k - z)/r mod n) such that (r, s) is a valid signature with s at a chosen position: (n-1)/2 +- {0,1,2,3, 2^j for j = 2..254}, 1, 2, n-1, n-2, 2^255 +- 1, (p-1)/2 +- 1, random offsets of every magnitude, uniform s; a math/big + crypto/elliptic reference verification confirms (r, s) and (r, n-s) are valid ECDSA, then secp256r1.Verify, auth.SECP256R1.Verify and AuthParser.Unmarshal+Verify must accept exactly the form with s <= (n-1)/2, and of the two transactions carrying the two forms at most one may verify; distinct = (position of s, outcome).")
+	r.Rule("for honestly generated keys and signatures of ed25519, secp256r1 and BLS (messages: unsigned bytes of real transfer transactions and arbitrary byte strings incl. empty), every alternative auth encoding of a catalog is parsed and verified for the same message: all single-bit flips of the auth bytes (every bit for every second auth, a 1/8 sample otherwise), trailing/leading/truncated bytes, wrong type ids; ed25519: s+k*l for every k that fits, sign bits of R and A, y+p re-encodings where representable; secp256r1: (r,n-s), r+n/s+n where < 2^256, every public-key prefix; BLS: compression/infinity/sign flag of key and signature (sign flip = negated signature), x+p re-encodings of each field element where representable. Non-bit-flip mutants are also re-embedded into the transaction (parse + VerifyAuth, id must not change). BLS subgroup re-encodings (for every BLS auth above and for 6x as many further honest BLS auths): public key + T and public key - T for 3 random non-trivial cofactor-torsion points T of E(Fp) per auth (random x-coordinates until a curve point outside G1 is found, times the group order r; T != O and pk' outside G1 are confirmed; a counter records that the pairing equation holds for pk' with the honest signature when the key is not validated), signature +- T' for 3 random torsion points of E'(Fp2), key and signature both shifted, the point-at-infinity encoding c0 00..00 as public key, as signature and as both. None may verify. Plus, per honest auth: Unmarshal(Bytes()) round trip, verification after the round trip, Actor/Sponsor/factory address = type id | sha256(public key); address binding under every accessor order: on a FRESH auth object per call order (orders SSAAS, AASSA, SASA, ASAS, S, A with S = Sponsor(), A = Actor(); objects freshly produced by factory.Sign, freshly parsed by AuthParser.Unmarshal, and - through Transaction.GetSponsor() / tx.Auth.Actor() - the auth of a freshly signed transaction, of a freshly parsed transaction and of a freshly signed transaction without actions) every answer must equal type id | sha256(public key bytes). Non-trivial = mutant that parses (reaches signature verification); distinct = (scheme, mutation, outcome). Low-S boundary part (secp256r1): for 3000 / 150000 messages a key is constructed (nonce k and s chosen, d = (s*k - z)/r mod n) such that (r, s) is a valid signature with s at a chosen position: (n-1)/2 +- {0,1,2,3, 2^j for j = 2..254}, 1, 2, n-1, n-2, 2^255 +- 1, (p-1)/2 +- 1, random offsets of every magnitude, uniform s; a math/big + crypto/elliptic reference verification confirms (r, s) and (r, n-s) are valid ECDSA, then secp256r1.Verify, auth.SECP256R1.Verify and AuthParser.Unmarshal+Verify must accept exactly the form with s <= (n-1)/2, and of the two transactions carrying the two forms at most one may verify; distinct = (position of s, outcome).")
 	r.Assume("adversarially chosen small-order ed25519 public keys (accepted by ZIP-215 by design) are not alternative encodings of an honest signature and are out of scope", "sha256 as the address hash is taken from the documentation of codec.CreateAddress / auth.New*Address", "of the two valid forms (r, s), (r, n-s) the accepted one is the low one, s <= (n-1)/2 (documented at secp256r1.Verify / BIP-62 low-S; it is the form Sign emits)")
 	if rf := r.Replay(); rf != nil && len(rf.Witness) > 0 {
 		var lw c17LowS
@@ -394,6 +409,13 @@ func TestC17(t *testing.T) {
 			if judgeLowS(r, lw) == "not-constructed" {
 				r.Inconclusive("replayed low-S witness is not a valid ECDSA signature according to the reference verification")
 			}
+			r.Finish(0)
+			return
+		}
+		var ac c17AddrCase
+		if err := json.Unmarshal(rf.Witness, &ac); err == nil && ac.Order != "" && pkLen[ac.Scheme] != 0 && len(mustHex(ac.Auth)) > pkLen[ac.Scheme] {
+			// the signing key is not part of the witness: the freshly parsed objects are replayed
+			judgeAddressOrders(r, ac.Scheme, nil, mustHex(ac.Auth), mustHex(ac.Msg), nil)
 			r.Finish(0)
 			return
 		}
